@@ -198,6 +198,12 @@ func (t *Input) reflectSetKey(rv reflect.Value, key string, v interface{}) (err 
 
 func (t *Input) reflectSet(rv reflect.Value, v interface{}) (err error) {
 	if rv.CanSet() {
+		if v == nil {
+			// A null, as a member of a list for example, leaves the zero
+			// value of the Go type.
+			rv.Set(reflect.Zero(rv.Type()))
+			return
+		}
 		vv := reflect.ValueOf(v)
 		vt := vv.Type()
 		if vt.AssignableTo(rv.Type()) {
